@@ -64,6 +64,16 @@ func (s *solo) sendPeerCall(q *peerQ, c *rpcbench.Content) {
 	}
 	q.argDescs = append([]rpcbench.WDesc(nil), c.Caps...)
 	q.argSlots = append([]int(nil), c.Slots[:]...)
+	// identity of receiverHosted arguments at the time of sending (the
+	// export id may be re-used for another capability later)
+	q.argLocals = make([]*rpcbench.LocalCap, len(c.Caps))
+	for i, d := range c.Caps {
+		if d.Kind == "receiverHosted" {
+			if ce := s.cexp[d.ID]; ce != nil {
+				q.argLocals[i] = ce.local
+			}
+		}
+	}
 	s.peerSentDescs(c.Caps)
 	tgt := q.target
 	id := q.id
@@ -236,6 +246,11 @@ func (s *solo) buildRetSpec(a *peerA) *retSpec {
 		c.Caps = append(c.Caps, d)
 		spec.pcaps = append(spec.pcaps, pc)
 		spec.cexps = append(spec.cexps, ce)
+		var l *rpcbench.LocalCap
+		if ce != nil {
+			l = ce.local // identity now; the export id may name something else later
+		}
+		spec.clocals = append(spec.clocals, l)
 		return len(c.Caps) - 1
 	}
 	addPeerCap := func(pc *peerCap, copies int) int {
@@ -338,6 +353,7 @@ func (s *solo) peerReturn(a *peerA) {
 		e := s.exportOf(s.peerBoot)
 		spec.pcaps = []*peerCap{s.peerBoot}
 		spec.cexps = []*connExport{nil}
+		spec.clocals = []*rpcbench.LocalCap{nil}
 		spec.content.Caps = []rpcbench.WDesc{{Kind: "senderHosted", ID: e.id}}
 		s.sendReturn(a, spec, true)
 		// the application's bootstrap clients become references to this
@@ -386,7 +402,7 @@ func (s *solo) sendReturn(a *peerA, spec *retSpec, iface bool) {
 	countCaps := !(a.finSeen && a.finRRC) && !spec.exception && !canceled
 	if !countCaps {
 		spec.content.Caps = nil
-		spec.pcaps, spec.cexps = nil, nil
+		spec.pcaps, spec.cexps, spec.clocals = nil, nil, nil
 		for i := range spec.content.Slots {
 			spec.content.Slots[i] = -1
 		}
